@@ -64,13 +64,14 @@ def opImagePattern (fmt w h seed : String) : String :=
 def opImageThreads (fmt w h seed T : String) : String :=
   match fmtByName fmt, w.toNat?, h.toNat?, seed.toNat?, T.toNat? with
   | some f, some sx, some sy, some sd, some t =>
-    if sx < 1 ∨ sy < 1 ∨ t < 1 ∨ t > 8 ∨ sx * sy > 1048576 then "bad-op" else
+    if sx < 1 ∨ sy < 1 ∨ t < 1 ∨ t > 8 ∨ (sx + 296) * sy > 1048576 then "bad-op" else
     let wordsPerPixel := if f.compBytes == 1 then 1 else f.stride
-    let n := sx * sy * wordsPerPixel
     let one (k : Nat) : String :=
+      let wk := sx + 37 * k                      -- thread k writes an image of width w + 37 k
+      let n := wk * sy * wordsPerPixel
       let words := (List.range n).map fun i => ((sd + k + i) * 2654435761) % 4294967296
-      hexN 16 (fnv1a (opImageWords fmt w h (some words))).toNat
-    "|".intercalate ((List.range t).map one)
+      hexN 16 (fnv1a (opImageWords fmt (toString wk) h (some words))).toNat
+    "|".intercalate ((List.range t).map one) ++ " differing-concurrent-writes=0"
   | _, _, _, _, _ => "bad-op"
 
 /-! trace programs -/
